@@ -76,7 +76,7 @@ PROPS["C20"] = {
     "level_note": "Trusted: Lean kernel; factgen extraction of maxRetries and the two regex strings; Go regexp semantics for the shapes "
                   "`^literal`/`literal`; redigo.String reply conversion; the hand-written model of the loop/recursion is tied by differential "
                   "testing only; back-off sleeps and the other SyncNode fields are not modelled.",
-    "rule": "every assignment of {master-looking, replica-looking, connect error, command error, broken INFO} to the positions of 1..4 "
+    "rule": "(sync cases run the first two statements of Sync(): the retry is counted, then the source re-discovered, on syncers with 0..2 earlier restarts 0 min … 70 days ago.) every assignment of {master-looking, replica-looking, connect error, command error, broken INFO} to the positions of 1..4 "
             "(thorough: 5) nodes in one attempt; every hand-written INFO shape (CRLF/LF/CR-only, role line first/late/absent, role:master in "
             "non-leading positions, prefixes/suffixes, case, NUL/invalid UTF-8, one-bit flips) alone and next to a replica, as []byte and string "
             "replies; every command-error flavour; random histories over up to 10 attempts x up to 5 (thorough: 8) nodes: failover/promoted "
